@@ -3,6 +3,7 @@
   The IR is produced by the generators (independent of the compiler) or by the guarded IR dump of the compiler.
 -/
 import Lean.Data.Json
+import GrcVerif.Classes
 namespace Grc
 
 inductive OutSpec where
@@ -58,6 +59,7 @@ structure ProgIR where
   phantom : Nat := 0
   anyClass : Nat := 0
   classes : Array (List Nat) := #[]
+  classDefs : Array Cls.ClassDef := #[]
   passes : List PassIRj := []
 deriving Inhabited
 
@@ -78,6 +80,16 @@ partial def parseExpr (j : Json) : Except String Expr := do
   | "bin" => return .bin (← (← j.getObjVal? "op").getStr?) (← parseExpr (← j.getObjVal? "a")) (← parseExpr (← j.getObjVal? "b"))
   | "cond" => return .cond (← parseExpr (← j.getObjVal? "c")) (← parseExpr (← j.getObjVal? "a")) (← parseExpr (← j.getObjVal? "b"))
   | _ => throw s!"bad-input: expr kind {k}"
+
+partial def parseClassDef (j : Json) : Except String Cls.ClassDef := do
+  let k ← (← j.getObjVal? "k").getStr?
+  match k with
+  | "glyphs" => return .glyphs (← (← (← j.getObjVal? "g").getArr?).toList.mapM jNat)
+  | "ref" => return .ref (← jNat (← j.getObjVal? "c"))
+  | "union" => return .union (← (← (← j.getObjVal? "m").getArr?).toList.mapM parseClassDef)
+  | "inter" => return .inter (← parseClassDef (← j.getObjVal? "a")) (← parseClassDef (← j.getObjVal? "b"))
+  | "diff" => return .diff (← parseClassDef (← j.getObjVal? "a")) (← parseClassDef (← j.getObjVal? "b"))
+  | _ => throw s!"bad-input: classdef kind {k}"
 
 def parseItem (j : Json) : Except String ItemIR := do
   let inCls ← jOptNat (j.getObjValD "in")
@@ -129,13 +141,15 @@ def parseProgIR (text : String) : Except String ProgIR := do
   let j ← Json.parse text
   let classes ← (← (← j.getObjVal? "classes").getArr?).mapM fun c => do
     (← c.getArr?).toList.mapM jNat
+  let cdj := j.getObjValD "classDefs"
+  let classDefs ← if cdj.isNull then pure #[] else (← cdj.getArr?).mapM parseClassDef
   let passes ← (← (← j.getObjVal? "passes").getArr?).toList.mapM fun p => do
     let rules ← (← (← p.getObjVal? "rules").getArr?).toList.mapM parseRule
     pure ({ index := ← jNat (← p.getObjVal? "index"), table := ← (← p.getObjVal? "table").getStr?, rules } : PassIRj)
   return {
     numGlyphs := ← jNat (← j.getObjVal? "numGlyphs"), numReal := ← jNat (← j.getObjVal? "numReal"),
     lb := ← jNat (← j.getObjVal? "lb"), phantom := ← jNat (← j.getObjVal? "phantom"),
-    anyClass := ← jNat (← j.getObjVal? "anyClass"), classes, passes }
+    anyClass := ← jNat (← j.getObjVal? "anyClass"), classes, classDefs, passes }
 end
 
 end Grc
